@@ -34,6 +34,20 @@ TRIGGERS = [
      [["ps", 2], ["day", 1], ["e", 1]], ["day(1)", "day(2)", "ps(1,1)", "ps(1,3)", "ps(2,2)", "e(1)"], ["sum_chains"]),
     ("unused", "b(X,Y) :- db(X,Y), not e(X).\nc(X) :- b(X,_).\n:- c(X), db(X,X).",
      [["db", 2], ["e", 1]], ["db(1,2)", "db(2,2)", "db(2,1)", "e(1)"], ["unused"]),
+    ("unused_same_name", "p(X,Y) :- a(X), b(Y).\np(X,Y,Z) :- c(X), b(Y), b(Z).\nq(X) :- p(X,_).\nr(X) :- p(X,_,_).",
+     [["a", 1], ["b", 1], ["c", 1], ["e", 1]], ["a(1)", "b(1)", "c(2)", "e(1)"], ["unused"]),
+    ("duplication_two", "h1(X) :- p(X,Y), q(Y), e(X).\nh2(X) :- p(X,Y), q(Y), not e(X).\nh3(X) :- q(X), e(X), p(X,X).\n"
+                        "h4(Y) :- q(Y), e(Y), not p(Y,Y).", [["p", 2], ["q", 1], ["e", 1]],
+     ["p(1,2)", "p(2,2)", "q(2)", "q(1)", "e(1)", "e(2)"], ["duplication"]),
+    ("projection_two", "h(A,D) :- q3(A,B,C), r2(A,D), t(E), not s2(B,E).\nk(A,D) :- q3(A,B,C), r2(D,A), t(E), s2(B,E).",
+     [["q3", 3], ["r2", 2], ["t", 1], ["s2", 2], ["e", 1]],
+     ["q3(1,1,1)", "q3(2,1,2)", "r2(1,1)", "r2(2,3)", "t(1)", "s2(1,1)", "e(1)"], ["projection"]),
+    ("symmetry_two", "{ m(A,W) } :- dm(A,W).\nbad :- #count { W : m(M1,W), m(M2,W), M1 != M2 } >= 1.\n"
+                     "worse :- #count { A : m(A,W1), m(A,W2), W1 != W2 } >= 1.",
+     [["dm", 2], ["e", 1]], ["dm(1,1)", "dm(2,1)", "dm(1,2)", "e(1)"], ["symmetry"]),
+    ("minmax_two", "{ q(P,V) } :- dq(P,V).\nr(P,X) :- grp(P), X = #max { V : q(P,V) }.\ns(P,X) :- grp(P), X = #min { V : q(P,V) }.\n"
+                   "t(X) :- X = #max { V : q(P,V), grp(P) }.",
+     [["dq", 2], ["grp", 1], ["e", 1]], ["grp(1)", "grp(2)", "dq(1,1)", "dq(1,3)", "dq(2,2)", "e(1)"], ["minmax_chains"]),
     ("math", "{ a ; b }.\nr :- X = #sum { 1,a : a }, Y = #sum { 1,b : b ; 1,__agg(0) : e(1) }, X+Y = 2.",
      [["e", 1]], ["e(1)", "e(2)"], ["math"]),
     ("inline", "{ pe(V,Y) } :- dpe(V,Y).\nh(V,S) :- g(V), S = #sum { Y : pe(V,Y) }.\nfoo(X) :- X = #sum { S,V : h(V,S) ; 2,1,unique : e(1) }.",
@@ -91,7 +105,7 @@ def jobs(tier: str):
         if not quick:
             cfg_traits.append(DEFAULT)
 
-        removable = {"unused": {("b", 2)}, "inline": {("h", 2)}}.get(name, set())
+        removable = {"unused": {("b", 2)}, "inline": {("h", 2)}, "unused_same_name": {("p", 2), ("p", 3)}}.get(name, set())
 
         def cfgs(i=inp, text=None):
             # everything the (attacked) source derives is an output, except what the trigger is about removing
